@@ -54,7 +54,12 @@ def roots(t: T, depth: int = 0) -> Set[Tuple[str, str]]:
         # elements of what it was copied from
         return roots(t.args[0], depth + 1) | \
             _shallow_elements(t.args[0], depth + 1)
-    if o in ("attr", "upd", "mut", "star"):
+    if o == "attr":
+        # a field of a shallow copy (copy.copy / dataclasses.replace) is the
+        # original's field object
+        return roots(t.args[0], depth + 1) | \
+            _shallow_elements(t.args[0], depth + 1)
+    if o in ("upd", "mut", "star"):
         return roots(t.args[0], depth + 1)
     if o == "ite":
         return roots(t.args[1], depth + 1) | roots(t.args[2], depth + 1)
@@ -87,7 +92,7 @@ def roots(t: T, depth: int = 0) -> Set[Tuple[str, str]]:
 
 SHALLOW_COPIERS = ("builtins.dict", "builtins.list", "builtins.tuple",
                    "builtins.set", "copy.copy", "builtins.sorted",
-                   "builtins.reversed")
+                   "builtins.reversed", "dataclasses.replace")
 
 
 # attributes of evo's trajectory / result objects that hold numpy arrays
@@ -125,7 +130,7 @@ def _shallow_elements(c: T, depth: int = 0) -> Set[Tuple[str, str]]:
     if depth > 60 or not isinstance(c, T):
         return set()
     o = c.op
-    if o in ("sub", "elem", "named", "star"):
+    if o in ("sub", "elem", "named", "star", "attr"):
         return _shallow_elements(c.args[-1] if o == "named" else c.args[0],
                                  depth + 1)
     if o == "loopvar":
